@@ -198,11 +198,15 @@ PROPS["C10"] = {
 PROPS["C09"] = {
     "coq": ["Properties/C09.v", "Corr/Convcorr.v"],
     "trusted": CONV_TRUSTED + ["the readability oracle (harness/props/conv/paths.go) recomputes the response keys of every position from schema + document (CollectFields) and reads the __typename dispatch and premarshal tags of the emitted code with go/ast"],
-    "assumptions": ["stability (alone vs together) is decided by the oracle, not by a theorem: the converter model predicts every declaration in both runs and is compared in-kernel"],
-    "level_text": "Theorems: selectionsMatch holds iff two selection sets have the same tree of names; addType keeps every existing binding and binds a name only to a declaration of the same GraphQL type and the same selected names, anything else is a conflict error; the types of named fragments never replace an existing declaration (after the fix: commit; the formerly failing typename-equals-fragment-name program is proved to be rejected). Tied to convert.go/validation.go/names.go by comparing every emitted declaration of random programs with adversarially chosen names against the converter model in-kernel, a type-level readability oracle (every response key of every position is carried by the Go type generated for it, for every concrete type), and generating every operation alone and together.",
-    "level_note": "partial: alone-vs-together stability is oracle-checked (open finding: shared input types take the options of the first operation, documented upstream as issue 123).",
+    "assumptions": ["stability (alone vs together): one direction is a theorem (operations converted later never change or remove a declaration or operation entry of the earlier ones, for the whole converter model and every fuel); that an operation gets the SAME declarations alone as after other operations is decided by the oracle (the converter model predicts every declaration in both runs and is compared in-kernel) -- it is false for shared input types (open finding F-C09-1)"],
+    "level_text": "Theorems: selectionsMatch holds iff two selection sets have the same tree of names; addType keeps every existing binding and binds a name only to a declaration of the same GraphQL type and the same selected names, anything else is a conflict error; the types of named fragments never replace an existing declaration (after the fix: commit; the formerly failing typename-equals-fragment-name program is proved to be rejected); no step of the whole converter (the four mutually recursive functions of convert.go, arguments, operations, the operation loop; every schema, configuration and fuel) changes or removes a declaration the type map already holds, so the declarations and operation entries generated for a list of operations are all there, unchanged, when further operations follow (Proofs/ConvertExt.v). Tied to convert.go/validation.go/names.go by comparing every emitted declaration of random programs with adversarially chosen names against the converter model in-kernel, a type-level readability oracle (every response key of every position is carried by the Go type generated for it, for every concrete type), and generating every operation alone and together.",
+    "level_note": "partial: of alone-vs-together stability the direction 'later operations never change earlier ones' is a theorem over the whole converter model; 'an operation gets the same declarations alone as together' is oracle-checked (open finding: shared input types take the options of the first operation, documented upstream as issue 123).",
     "theorem_status": {"C09_match_is_structural": "proved", "C09_add_type_sound": "proved", "C09_clash_is_an_error": "proved",
-                       "C09_fragment_types_never_overwrite": "proved", "C09_typename_vs_fragment_name": "proved (fixed finding)"},
+                       "C09_fragment_types_never_overwrite": "proved", "C09_typename_vs_fragment_name": "proved (fixed finding)",
+                       "C09_converter_never_changes_an_existing_declaration": "proved",
+                       "C09_later_operations_never_change_earlier_declarations": "proved",
+                       "C09_together_succeeds_only_if_the_prefix_alone_succeeds": "proved",
+                       "C09_two_operations_witness": "proved"},
 }
 
 PROPS["C07"] = {
